@@ -105,6 +105,30 @@ func init() {
 		ex.draws = append(ex.draws, Draw{Tag: name, Kind: "uint", Vars: []*Term{v}, Width: 8})
 		return v
 	})
+	reg(vr+"ByteIn", func(ex *Exec, fn *ssa.Function, args []Value) Value {
+		// one byte from a set (ranges as in StrIn)
+		name := ex.drawName(ex.concreteStrArg(args[0], "tag"))
+		alpha := ex.concreteStrArg(args[1], "alphabet")
+		tc := ex.tc
+		v := tc.Var(name, 8)
+		tc.ClearDomain(v)
+		var dom [4]uint64
+		ok := tc.False
+		for _, r := range byteRanges(alpha) {
+			for x := int(r[0]); x <= int(r[1]); x++ {
+				dom[x>>6] |= 1 << (uint(x) & 63)
+			}
+			if r[0] == r[1] {
+				ok = tc.Or(ok, tc.Eq(v, tc.BV(uint64(r[0]), 8)))
+			} else {
+				ok = tc.Or(ok, tc.And(tc.Ule(tc.BV(uint64(r[0]), 8), v), tc.Ule(v, tc.BV(uint64(r[1]), 8))))
+			}
+		}
+		ex.assume(ok)
+		tc.SetDomain(v, &dom)
+		ex.draws = append(ex.draws, Draw{Tag: name, Kind: "uint", Vars: []*Term{v}, Width: 8})
+		return v
+	})
 	reg(vr+"Str", func(ex *Exec, fn *ssa.Function, args []Value) Value {
 		name := ex.drawName(ex.concreteStrArg(args[0], "tag"))
 		c := ex.concreteIntArg(args[1], "capacity")
